@@ -32,6 +32,7 @@ import (
 	"github.com/olive-io/bpmn/v2/pkg/event"
 	"github.com/olive-io/bpmn/v2/pkg/id"
 	"github.com/olive-io/bpmn/v2/pkg/tracing"
+	"github.com/olive-io/bpmn/v2/pkg/verifhook"
 )
 
 type ActivityType string
@@ -157,6 +158,7 @@ func newHarness(wr *wiring, idGenerator id.IGenerator, constructor constructor) 
 		if boundaryEvent.CancelActivity() {
 			actionTransformer = func(sequenceFlowId *schema.IdRef, action IAction) IAction {
 				node.cancellation.Do(func() {
+					verifhook.Point("act.cancel")
 					<-node.activity.Cancel()
 				})
 				return action
@@ -184,6 +186,7 @@ func (node *harness) run(ctx context.Context, sender tracing.ISenderHandle) {
 					select {
 					case rsp := <-in:
 						out <- rsp
+						verifhook.Point("act.relay")
 						atomic.StoreInt32(&node.active, 0)
 						node.tracer.Send(ActiveBoundaryTrace{Start: false, Node: node.activity.Element()})
 					case <-bctx.Done():
@@ -393,6 +396,7 @@ func (t *taskTrace) Do(options ...DoOption) {
 	}
 
 	response := newDoOption(options...)
+	verifhook.Point("task.do")
 	t.forward <- *response
 }
 
@@ -429,6 +433,7 @@ func (t *taskTrace) process() {
 		rsp := newDoOption(DoWithErr(errors.TaskExecError{Id: tid, Reason: "timed out"}))
 		t.response <- *rsp
 	case rsp := <-t.forward:
+		verifhook.Point("task.process")
 		t.response <- rsp
 	}
 
